@@ -212,3 +212,16 @@ CHECKS["C07"] = {
              "receipt and is pinned by the repository's own test; it is outside R07.2, which covers joins. Unknown expressions in the line/column update make the check "
              "exit 2 (analysis incomplete) rather than guess."),
 }
+
+CHECKS["C01"] = {
+    "technique": "static analysis: regular-language inclusion/intersection between the emitter's quoting decision and the tokenizer model (NFA over a symbolic alphabet, with witness strings), escape-chain agreement for verbatim token reconstructions, ordering and indent-arithmetic rules over the emitter's AST, placement rule for trailing comments",
+    "text": ("Decides necessary conditions of re-readability and idempotence: every string needs_quotes leaves bare is consumed by the tokenizer as exactly the token(s) its "
+             "reader expects (no token regex steals a prefix, the identifier scanner reads the whole word, expression segments are accepted by parse_flow_expression; "
+             "one recorded known finding: A<> / NEVER<A,B>); scanned identifiers become exactly IDENTIFIER tokens; text rebuilt from tokens and written verbatim "
+             "(Section.annotation, HolographicValue.raw_pattern) spells STRING tokens through the emitter's own escape chain; emit() writes the document parts in the "
+             "order parse_document consumes them; children are emitted at indent + 1 with two spaces per level and emit_meta's literal prefixes match the depth it "
+             "lays values out for; number conversions cannot leave the NUMBER language; the trailing comment of an assignment follows the complete value text."),
+    "note": ("emit(parse(emit(parse(x)))) == emit(parse(x)) itself is not decided: list-layout stability (_needs_multiline vs parse_list), indentation re-reading through "
+             "INDENT tokens / implicit dedent and comment placement other than the assignment trailing comment depend on the hand-written parser's control state on "
+             "runtime token streams. The alphabet is symbolic (ASCII + literal non-ASCII + one representative per Unicode category)."),
+}
